@@ -223,6 +223,11 @@ def generate(rng, tier):
                      (12, 31), (12, 32), (13, 1), (0, 1), (1, 0)]:
             dstr.append(f'{y}-{m}-{d}')
             dstr.append(f'{y}-{m:02d}-{d:02d}' + rng.choice([' 10:11:12', 'T10:11', ' ', 'T', ' x']))
+    # a date part followed by a time part that itself contains the other separator / zone names
+    for base in ['2019', '2019-02', '2019-02-28', '2019-02-30', '2020-2-29', '1999-12-31', '0001-1-1', '2019-13-01']:
+        for tail in [' 10:15:30 UTC', ' 10:15:30 GMT', ' CET', ' T', ' xTy', ' 1T2 3', 'T10:15:30 UTC', 'T10:15:30 +01:00',
+                     'T T', ' \t', 'T', ' ', '  10:15', 'T 10:15', ' EST5EDT', 'Tea time']:
+            dstr.append(base + tail)
     for s in dstr:
         cases.append((STRING, DATE, s))
     # numbers and booleans into float/double (float(value); exact below 2**53)
